@@ -244,6 +244,8 @@ def failed_part_refuses_the_whole(ctx, tag):
 
 
 def run(ctx):
+    from .C11 import instance_action_args
+    instance_action_args(ctx)      # an instance's action is initialised with the arguments the configuration gives it
     failed_part_refuses_the_whole(ctx, "C12")
     from .C13 import compile_dropin_refuses_whole_unit
     compile_dropin_refuses_whole_unit(ctx)
